@@ -901,7 +901,19 @@ def replay_cases(ctx):
     return out
 
 
+import os, sys, time
+_T0 = [time.time()]
+
+
+def _t(label):
+    if os.environ.get("VERIF_TIMING"):
+        now = time.time()
+        print("[timing] %-18s %.1fs" % (label, now - _T0[0]), file=sys.stderr)
+        _T0[0] = now
+
+
 def run(ctx):
+    _T0[0] = time.time()
     ctx.assumptions += [
         "base32 is an abstract coding with the section hypothesis dec(upper(lower(enc p))) = p (tested on the real coding on every run)",
         "X25519, Elligator, AES, noise are section variables with the stated algebraic laws (not proved)",
@@ -919,9 +931,11 @@ def run(ctx):
     rc, out = ctx.coq_make(["C15/Examples.vo"])
     if rc != 0:
         ctx.broken("examples", "non-vacuity examples (C15/Examples.v) no longer check: " + out[-500:])
+    _t("coq props+examples")
     cases = replay_cases(ctx) + gen_fmt(ctx) + gen_names(ctx) + gen_req(ctx) + gen_obf(ctx) + gen_any(ctx) + gen_msg(ctx) + gen_query(ctx) + gen_exch(ctx)
     if not run_go(ctx, cases):
         return
+    _t("gen + go stage 1")
     # second stage: what the requester sent is parsed by the dns package and answered by the responder
     sends = [c for c in cases if c.fam == "send"]
     stage2 = []
@@ -935,6 +949,7 @@ def run(ctx):
     stage2 += gen_msg_dec(ctx, [bytes.fromhex(c.res["out"]) for c in cases if c.fam == "msg_rt" and c.res.get("ok") and len(c.res["out"]) < 1200])
     if stage2 and not run_go(ctx, stage2):
         return
+    _t("go stage 2")
     b32 = {c.aux: bytes.fromhex(c.res["out"]) for c in cases if c.fam == "b32"}
     terms, tcases = [], []
     for c in cases + stage2:
@@ -992,7 +1007,9 @@ def run(ctx):
                        "query/payload", "query/none", "query/rcode1", "query/rcode3", "query/rcode4", "query/rcode0",
                        "exchange/ok", "exchange/req-too-long", "exchange/resp-too-long",
                        "anypb/keep/ok", "anypb/empty/ok", "anypb/tapdance/ok", "anypb/other/err", "anypb/cross-keep/err", "anypb/nil/ok"])
+    _t("oracle + terms")
     mm = ctx.coq_mismatches("all", HEADER, terms, "chk", shard=max(60, (len(terms) + 11) // 12), need_vo=["C15/Run.vo"])
+    _t("coq cases (%d terms)" % len(terms))
     if mm:
         ctx.cov["mismatches"] += len(mm)
         c = tcases[mm[0]]
